@@ -232,7 +232,13 @@ fn gen_history(rng: &mut Rng, len: usize, nav: bool) -> String {
             15 => format!("hi{}", small_idx(rng, n)),
             16 => format!("uh{}", small_idx(rng, n)),
             17 | 18 => format!("mv{},{}", small_idx(rng, n), small_idx(rng, n)),
-            19 | 20 => "un".to_string(),
+            19 => "un".to_string(),
+            20 => {
+                // undo, move the selection (not a history entry), redo
+                cmds.push("un".to_string());
+                cmds.push(format!("ss{}", small_idx(rng, n + 1)));
+                "re".to_string()
+            }
             21 => "re".to_string(),
             22 => rng.pick(&["pd", "pu"]).to_string(),
             23 => rng.pick(&["eL", "eR", "eU", "eD"]).to_string(),
@@ -271,6 +277,12 @@ fn corpus() -> Vec<&'static str> {
         "ns;ns;hi0;hi1;hi2;uh1;ss1;hi1",
         "ns;ns;ss1;hi1;un;re",
         "de0;un;re",
+        // the selection is moved between an undo and the redo
+        "ns;de0;un;ss1;re",
+        "ns;ns;de0;un;ss2;re;aR",
+        "ns;ns;ss0;de1;un;ss2;re",
+        "ns;un;re;ss0;un",
+        "ns;du1;un;ss1;re;un",
         // cell / range
         "sc5,5;sr1,1,5,5;ar1,1",
         "sc5,5;sr5,5,9,9;ar2,2;aL;aU",
